@@ -356,7 +356,14 @@ class Lin:
                     # that parameter): forwarding them is then free of the option
                     named_all = all(o in self.named_params for o in aff_opts)
                     extra += [a for i, a in enumerate(t.args) if a.op == "star" and i >= 1 and not (named_all and a.x.op == "rest")]
-                    extra += [d_ for d_ in t.get("dstar", []) if not (named_all and d_.op == "kwrest")]
+                    for d_ in t.get("dstar", []):
+                        if d_.op == "dict" and all(k_ is not None and k_.op == "const" for k_, _ in d_.items):
+                            # **{"axis": a, "keepdims": k}: a display says exactly which options it carries
+                            extra += [v_ for k_, v_ in d_.items if k_.value in aff_opts]
+                        elif d_.op == "call" and d_.fn.op == "ref" and d_.fn.ref.qual == "builtins.dict" and not d_.args and not d_.get("dstar"):
+                            extra += [v_ for k_, v_ in d_.kw.items() if k_ in aff_opts]  # **dict(axis=a, keepdims=k)
+                        elif not (named_all and d_.op == "kwrest"):
+                            extra.append(d_)
                     if any(not zeroish(x_) for x_ in extra):
                         self.blame(t, f"numpy.{bn} with {' / '.join(aff_opts)} (or forwarded *args / **kwargs) adds values that do not come from the (co)tangent: affine")
                         return join(args[0], "A")
